@@ -665,7 +665,7 @@ def shrink(ctx, events, kind):
         """-> None, or (events as re-observed, first hit of that kind) when the oracle still fires"""
         eng = kdrv.Engine(workdir=ctx.work)
         try:
-            run = Runner(NullCtx(), eng)
+            run = Runner(NullCtx(ctx.work), eng)
             try:
                 replay_events(run, evs)
             except Exception:
@@ -693,6 +693,9 @@ def shrink(ctx, events, kind):
 
 
 class NullCtx:
+    def __init__(self, work=None):
+        self.work = work
+
     def count(self, *a, **k):
         pass
 
@@ -783,7 +786,7 @@ def replay(ctx, data):
         return 2
     eng = kdrv.Engine(workdir=ctx.work)
     try:
-        run_ = Runner(NullCtx(), eng)
+        run_ = Runner(NullCtx(ctx.work), eng)
         replay_events(run_, events)
         for sig, wit, what in run_.hits:
             print('REPRODUCED:', what)
